@@ -1,6 +1,6 @@
 (** Property C06 -- scrolling stays in its region and feeds the scrollback in order.
     Only pinned statements, closed by [exact], with their assumptions printed. *)
-From Avt Require Import Oracles.Step Proofs.Inv Proofs.VisEq Proofs.BufScroll Proofs.SpecScroll Proofs.StepC06C08.
+From Avt Require Import Oracles.Step Proofs.Inv Proofs.VisEq Proofs.BufScroll Proofs.SpecScroll Proofs.StepC06C08 Proofs.StepC06M.
 
 (** LF/IND/NEL on the bottom margin, RI on the top margin, SU, SD, IL, DL: from every state satisfying the invariant the control function succeeds and yields exactly the specified screen, scrollback, cursor and modes (all fields except dirty flags / lazy-trim flag). *)
 Theorem C06_scroll : forall t f e, TInv t -> spec_scroll t f = Some e -> exists t', execute t f = Ok t' /\ vis_norm e = vis_norm t'.
@@ -30,3 +30,15 @@ Theorem C06_frame : forall t f t', TInv t -> execute t f = Ok t' -> (may_touch_s
 Proof. exact C06_frame_holds. Qed.
 Check C06_frame : forall t f t', TInv t -> execute t f = Ok t' -> (may_touch_scrollback f = false -> lines_eqb (tsb t) (tsb t') = true /\ buffer_vis_eqb (other t) (other t') = true) /\ (match f with Decstbm _ _ | Decstr | Ris | Decset _ | Decrst _ | Xtwinops _ => True | _ => top t = top t' /\ bot t = bot t' end).
 Print Assumptions C06_frame.
+
+(** switching screens or toggling any mode never changes the scroll region; a resize resets it to the full screen exactly
+    when the height changes and keeps it on a width-only change *)
+Theorem C06_modes : forall p p' t f t', execute t f = Ok t' -> holds_C06_modes (mkVt p t) f (mkVt p' t') = true.
+Proof. exact C06_modes_holds. Qed.
+Check C06_modes : forall p p' t f t', execute t f = Ok t' -> holds_C06_modes (mkVt p t) f (mkVt p' t') = true.
+Print Assumptions C06_modes.
+
+Theorem C06_resize : forall p p' t c r t', term_resize t c r = Ok t' -> holds_C06_resize (mkVt p t) (mkVt p' t') = true.
+Proof. exact C06_resize_holds. Qed.
+Check C06_resize : forall p p' t c r t', term_resize t c r = Ok t' -> holds_C06_resize (mkVt p t) (mkVt p' t') = true.
+Print Assumptions C06_resize.
